@@ -111,6 +111,7 @@ def run_case(case):
             for dd in dets[1:]:
                 c2 += dd
             combos.append(("+=", c2))
+        own_before = [[id(a) for a in dd] if isinstance(dd, Detector) else None for dd in dets]
         for how, c in combos:
             want = flat if how != "0+" else list(dets[0])
             got = list(c)
@@ -135,6 +136,9 @@ def run_case(case):
             v.check(bool(c.triggered(require_mc_truth=True)) == mc, "default trigger by Monte-Carlo truth <=> some antenna is hit by Monte-Carlo truth", how=how, n_hit=len(hits), mc=mc)
             c.clear()
             v.check(not any(len(a.signals) for a in want) and not c.triggered(), "clear clears every antenna", how=how)
+        for dd, ob in zip(dets, own_before):
+            if ob is not None:
+                v.check([id(a) for a in dd] == ob, "combining detectors leaves each operand's own content unchanged", before=len(ob), after=len(list(dd)), operand=type(dd).__name__)
         # ---- measured once, then rebuilt / extended underneath, then measured again: len / index / iteration stay in step
         for how, c in combos[:2]:
             if how == "0+":
